@@ -1,0 +1,126 @@
+//go:build verif
+
+// Contracts for govc (/verif): C28 consensus operations form a serialized single-transaction chain.
+// Comment-only file. This part: the classification of a transaction (common/transaction.go).
+
+package common
+
+// ───────────── representation invariant of a decoded transaction ─────────────
+// Established by the decoder (readInput/readOutput allocate every element) and by every constructor in the
+// repository (AddInput/AddOutput… append freshly allocated elements): the element pointers are never nil.
+
+//@ spec TxElemsOK(tx *SignedTransaction) bool = tx != nil &&
+//@     (forall i int :: 0 <= i && i < len(tx.Inputs) ==> tx.Inputs[i] != nil) &&
+//@     (forall i int :: 0 <= i && i < len(tx.Outputs) ==> tx.Outputs[i] != nil)
+
+// ───────────── the classification, as a closed predicate per class ─────────────
+// An input is "marked" when it is a mint, deposit or genesis input. The first marked input decides the class.
+// Without marked input the first output of a special type decides; without it: script iff all outputs are script.
+
+//@ spec InMarked(in *Input) bool = in.Mint != nil || in.Deposit != nil || !isnil(in.Genesis)
+//@ spec FirstMarked(tx *SignedTransaction, i int) bool = 0 <= i && i < len(tx.Inputs) && InMarked(tx.Inputs[i]) &&
+//@     (forall k int :: 0 <= k && k < i ==> !InMarked(tx.Inputs[k]))
+//@ spec NoMarked(tx *SignedTransaction) bool = forall k int :: 0 <= k && k < len(tx.Inputs) ==> !InMarked(tx.Inputs[k])
+//@ spec SpecialOut(t int) bool = t == OutputTypeWithdrawalSubmit || t == OutputTypeWithdrawalClaim || t == OutputTypeNodePledge ||
+//@     t == OutputTypeNodeCancel || t == OutputTypeNodeAccept || t == OutputTypeNodeRemove ||
+//@     t == OutputTypeCustodianUpdateNodes || t == OutputTypeCustodianSlashNodes
+//@ spec ClassOfOut(t int) int = t == OutputTypeWithdrawalSubmit ? TransactionTypeWithdrawalSubmit : (t == OutputTypeWithdrawalClaim ? TransactionTypeWithdrawalClaim :
+//@     (t == OutputTypeNodePledge ? TransactionTypeNodePledge : (t == OutputTypeNodeCancel ? TransactionTypeNodeCancel :
+//@     (t == OutputTypeNodeAccept ? TransactionTypeNodeAccept : (t == OutputTypeNodeRemove ? TransactionTypeNodeRemove :
+//@     (t == OutputTypeCustodianUpdateNodes ? TransactionTypeCustodianUpdateNodes : (t == OutputTypeCustodianSlashNodes ? TransactionTypeCustodianSlashNodes : TransactionTypeUnknown)))))))
+//@ spec ClassOfIn(in *Input) int = in.Mint != nil ? TransactionTypeMint : (in.Deposit != nil ? TransactionTypeDeposit : TransactionTypeUnknown)
+//@ spec FirstSpecial(tx *SignedTransaction, j int) bool = 0 <= j && j < len(tx.Outputs) && SpecialOut(tx.Outputs[j].Type) &&
+//@     (forall k int :: 0 <= k && k < j ==> !SpecialOut(tx.Outputs[k].Type))
+//@ spec FirstSpecialIs(tx *SignedTransaction, t int) bool = exists j int :: 0 <= j && j < len(tx.Outputs) && tx.Outputs[j].Type == t &&
+//@     (forall k int :: 0 <= k && k < j ==> !SpecialOut(tx.Outputs[k].Type))
+//@ spec OutClassIs(tx *SignedTransaction, t int) bool = NoMarked(tx) && FirstSpecialIs(tx, t)
+
+//@ spec IsMintTx(tx *SignedTransaction) bool = exists i int :: FirstMarked(tx, i) && tx.Inputs[i].Mint != nil
+//@ spec IsDepositTx(tx *SignedTransaction) bool = exists i int :: FirstMarked(tx, i) && tx.Inputs[i].Mint == nil && tx.Inputs[i].Deposit != nil
+//@ spec IsScriptTx(tx *SignedTransaction) bool = NoMarked(tx) && (forall j int :: 0 <= j && j < len(tx.Outputs) ==> tx.Outputs[j].Type == OutputTypeScript)
+
+//@ spec TxTypeIs(tx *SignedTransaction, c int) bool =
+//@     (c == TransactionTypeMint && IsMintTx(tx)) ||
+//@     (c == TransactionTypeDeposit && IsDepositTx(tx)) ||
+//@     (c == TransactionTypeScript && IsScriptTx(tx)) ||
+//@     (c == TransactionTypeWithdrawalSubmit && OutClassIs(tx, OutputTypeWithdrawalSubmit)) ||
+//@     (c == TransactionTypeWithdrawalClaim && OutClassIs(tx, OutputTypeWithdrawalClaim)) ||
+//@     (c == TransactionTypeNodePledge && OutClassIs(tx, OutputTypeNodePledge)) ||
+//@     (c == TransactionTypeNodeCancel && OutClassIs(tx, OutputTypeNodeCancel)) ||
+//@     (c == TransactionTypeNodeAccept && OutClassIs(tx, OutputTypeNodeAccept)) ||
+//@     (c == TransactionTypeNodeRemove && OutClassIs(tx, OutputTypeNodeRemove)) ||
+//@     (c == TransactionTypeCustodianUpdateNodes && OutClassIs(tx, OutputTypeCustodianUpdateNodes)) ||
+//@     (c == TransactionTypeCustodianSlashNodes && OutClassIs(tx, OutputTypeCustodianSlashNodes))
+
+// The batchable classes and the consensus classes of the property, by class code and by content.
+//@ spec BatchableClass(c int) bool = c == TransactionTypeScript || c == TransactionTypeDeposit ||
+//@     c == TransactionTypeWithdrawalSubmit || c == TransactionTypeWithdrawalClaim
+//@ spec ConsensusClass(c int) bool = c == TransactionTypeMint || c == TransactionTypeNodePledge || c == TransactionTypeNodeCancel ||
+//@     c == TransactionTypeNodeAccept || c == TransactionTypeNodeRemove ||
+//@     c == TransactionTypeCustodianUpdateNodes || c == TransactionTypeCustodianSlashNodes
+//@ spec BatchableTx(tx *SignedTransaction) bool = IsScriptTx(tx) || IsDepositTx(tx) ||
+//@     OutClassIs(tx, OutputTypeWithdrawalSubmit) || OutClassIs(tx, OutputTypeWithdrawalClaim)
+//@ spec ConsensusTx(tx *SignedTransaction) bool = IsMintTx(tx) || OutClassIs(tx, OutputTypeNodePledge) || OutClassIs(tx, OutputTypeNodeCancel) ||
+//@     OutClassIs(tx, OutputTypeNodeAccept) || OutClassIs(tx, OutputTypeNodeRemove) ||
+//@     OutClassIs(tx, OutputTypeCustodianUpdateNodes) || OutClassIs(tx, OutputTypeCustodianSlashNodes)
+
+// TransactionType is `pure`: in specs `tx.TransactionType()` denotes its result in the current state (an uninterpreted
+// function of tx and of the heap components the body reads; see govc/pureheap.go). The clauses below tie that value
+// to the content of the transaction in both directions:
+//   [local-is]  the returned class holds of the content (existential form: a first marked input / first special output exists),
+//   [local-by-input] [local-by-output] [local-script]  the content determines the class (universal form), hence the class is unique.
+// `local-` clauses are proved here but not re-assumed at call sites (callers reason on the class code; [mint] is the one
+// content fact a caller needs: kernel/self.go dereferences tx.Inputs[0].Mint of a mint-class transaction).
+//@ func (tx *SignedTransaction) TransactionType
+//@   property C28, C05, C17
+//@   requires TxElemsOK(tx)
+//@   pure
+//@   ensures [range] result == 0 || result == 1 || result == 2 || result == 3 || result == 5 || result == 6 || result == 7 || result == 9 ||
+//@       result == 18 || result == 19 || result == 20 || result == 255
+//@   ensures [mint] result == TransactionTypeMint ==> IsMintTx(tx)
+//@   ensures [local-is] result == TransactionTypeUnknown || TxTypeIs(tx, result)
+//@   ensures [local-by-input] forall i int :: FirstMarked(tx, i) ==> result == ClassOfIn(tx.Inputs[i])
+//@   ensures [local-by-output] NoMarked(tx) ==> (forall j int :: FirstSpecial(tx, j) ==> result == ClassOfOut(tx.Outputs[j].Type))
+//@   ensures [local-script] IsScriptTx(tx) ==> result == TransactionTypeScript
+//@   loop 0 invariant forall k int :: 0 <= k && k <= rangeindex ==> !InMarked(tx.Inputs[k])
+//@   loop 1 invariant NoMarked(tx) && (forall k int :: 0 <= k && k <= rangeindex ==> !SpecialOut(tx.Outputs[k].Type))
+//@   loop 1 invariant isScript <==> (forall k int :: 0 <= k && k <= rangeindex ==> tx.Outputs[k].Type == OutputTypeScript)
+//@   requires tx != nil && InputsOK(&tx.Transaction) && OutputsOK(&tx.Transaction)
+//@   ensures [c05-mint] result == TransactionTypeMint ==> exists k int :: 0 <= k && k < len(tx.Inputs) && tx.Inputs[k].Mint != nil && (forall j int :: 0 <= j && j < k ==> PlainInput(tx.Inputs[j]))
+//@   ensures [c05-deposit] result == TransactionTypeDeposit ==> exists k int :: 0 <= k && k < len(tx.Inputs) && tx.Inputs[k].Mint == nil && tx.Inputs[k].Deposit != nil && (forall j int :: 0 <= j && j < k ==> PlainInput(tx.Inputs[j]))
+//@   ensures [c05-plain] result != TransactionTypeMint && result != TransactionTypeDeposit && result != TransactionTypeUnknown ==> PlainInputs(&tx.Transaction)
+//@   ensures [c05-node] PlainInputs(&tx.Transaction) && len(tx.Outputs) >= 1 ==>
+//@       (tx.Outputs[0].Type == OutputTypeNodePledge ==> result == TransactionTypeNodePledge) &&
+//@       (tx.Outputs[0].Type == OutputTypeNodeAccept ==> result == TransactionTypeNodeAccept) &&
+//@       (tx.Outputs[0].Type == OutputTypeNodeRemove ==> result == TransactionTypeNodeRemove)
+//@   -- C17 (zz_contracts_c17_verif.go): the classification writeTotalInAsset relies on, by the first input / first output
+//@   ensures [c17-mint-first] len(tx.Inputs) >= 1 && tx.Inputs[0].Mint != nil ==> result == TransactionTypeMint
+//@   ensures [c17-deposit-first] len(tx.Inputs) >= 1 && tx.Inputs[0].Mint == nil && tx.Inputs[0].Deposit != nil ==> result == TransactionTypeDeposit
+//@   ensures [c17-genesis-first] len(tx.Inputs) >= 1 && tx.Inputs[0].Mint == nil && tx.Inputs[0].Deposit == nil && !isnil(tx.Inputs[0].Genesis) ==> result == TransactionTypeUnknown
+//@   ensures [c17-unknown] result == TransactionTypeUnknown ==> PlainInputs(&tx.Transaction) || (exists k int :: 0 <= k && k < len(tx.Inputs) && !isnil(tx.Inputs[k].Genesis))
+//@   ensures [c17-submit-first] PlainInputs(&tx.Transaction) && len(tx.Outputs) >= 1 && tx.Outputs[0].Type == OutputTypeWithdrawalSubmit ==> result == TransactionTypeWithdrawalSubmit
+//@   ensures [c17-submit-only] result == TransactionTypeWithdrawalSubmit ==> exists j int :: 0 <= j && j < len(tx.Outputs) && tx.Outputs[j].Type == OutputTypeWithdrawalSubmit
+//@   loop 0 invariant forall j int :: 0 <= j && j <= rangeindex ==> PlainInput(tx.Inputs[j])
+//@   loop 1 invariant [c17] forall j int :: 0 <= j && j <= rangeindex ==> tx.Outputs[j].Type != OutputTypeWithdrawalSubmit
+//@   loop 1 invariant PlainInputs(&tx.Transaction)
+//@   loop 1 invariant forall j int :: 0 <= j && j <= rangeindex ==> !NodeKind(tx.Outputs[j].Type)
+
+//@ func (tx *SignedTransaction) IsSnapshotBatchable
+//@   property C28
+//@   requires TxElemsOK(tx)
+//@   pure
+//@   ensures [class] result <==> BatchableClass(tx.TransactionType())
+//@   ensures [exclusive] result ==> !ConsensusClass(tx.TransactionType())
+
+// ───────────── the same notions on a *VersionedTransaction (which embeds the SignedTransaction) ─────────────
+//@ spec VTxOK(tx *VersionedTransaction) bool = tx != nil && TxElemsOK(&tx.SignedTransaction)
+//@ spec VMintTx(tx *VersionedTransaction) bool = IsMintTx(&tx.SignedTransaction)
+//@ spec VTxType(tx *VersionedTransaction) int = (&tx.SignedTransaction).TransactionType()
+// The payload hash of a transaction object. PayloadHash() = Blake3(PayloadMarshal()), cached in the object. The encoder is
+// out of scope for C28; what C28 needs is that the hash is a fixed attribute of the transaction object while a snapshot
+// is validated (no function under contract here writes a payload field of the transaction). ASSUMED.
+//@ uninterp TxHash(tx *VersionedTransaction) crypto.Hash
+
+//@ -- (ver *VersionedTransaction) PayloadMarshal: contract in zz_contracts_c06_verif.go
+
+//@ -- (ver *VersionedTransaction) PayloadHash: contract in zz_contracts_c06_verif.go
